@@ -242,6 +242,7 @@ enum SegCall {
     Title(Duration, String),
     Uri(String),
     Num(usize),
+    NumNone,
     BrAt(usize, usize),
     BrTo(usize),
     Disc,
@@ -265,6 +266,7 @@ fn p_seg(toks: &[&str]) -> Res<Vec<SegCall>> {
             }
             "title" => SegCall::Title(last_dur.ok_or(Fail::Bad)?, p_text(v)?),
             "uri" => SegCall::Uri(p_text(v)?),
+            "num" if v == "none" => SegCall::NumNone,
             "num" => SegCall::Num(p_usize(v)?),
             "br" => {
                 if v.contains('@') {
@@ -322,6 +324,9 @@ fn build_seg(calls: &[SegCall]) -> Res<MediaSegment<'_>> {
             }
             SegCall::Num(n) => {
                 b.number(Some(*n));
+            }
+            SegCall::NumNone => {
+                b.number(None);
             }
             SegCall::BrAt(len, start) => {
                 b.byte_range(ExtXByteRange::from(*start..*start + *len));
